@@ -31,9 +31,36 @@ func classify(err error) string {
 	return "EOTHER"
 }
 
+// presetDst: unmarshal into destinations that already hold a (large) value
+var presetDst bool
+
 func uut(w int, text []byte) string {
 	var n uint64
 	var err error
+	if presetDst {
+		switch w {
+		case 8:
+			v := view.Uint8View(0xa5)
+			err = v.UnmarshalText(text)
+			n = uint64(v)
+		case 16:
+			v := view.Uint16View(0xa5a5)
+			err = v.UnmarshalText(text)
+			n = uint64(v)
+		case 32:
+			v := view.Uint32View(0xa5a5a5a5)
+			err = v.UnmarshalText(text)
+			n = uint64(v)
+		case 64:
+			v := view.Uint64View(0xa5a5a5a5a5a5a5a5)
+			err = v.UnmarshalText(text)
+			n = uint64(v)
+		}
+		if err != nil {
+			return classify(err)
+		}
+		return "OK " + hx(n)
+	}
 	switch w {
 	case 8:
 		var v view.Uint8View
@@ -61,6 +88,30 @@ func uut(w int, text []byte) string {
 func uuj(w int, text []byte) string {
 	var n uint64
 	var err error
+	if presetDst {
+		switch w {
+		case 8:
+			v := view.Uint8View(0xa5)
+			err = v.UnmarshalJSON(text)
+			n = uint64(v)
+		case 16:
+			v := view.Uint16View(0xa5a5)
+			err = v.UnmarshalJSON(text)
+			n = uint64(v)
+		case 32:
+			v := view.Uint32View(0xa5a5a5a5)
+			err = v.UnmarshalJSON(text)
+			n = uint64(v)
+		case 64:
+			v := view.Uint64View(0xa5a5a5a5a5a5a5a5)
+			err = v.UnmarshalJSON(text)
+			n = uint64(v)
+		}
+		if err != nil {
+			return classify(err)
+		}
+		return "OK " + hx(n)
+	}
 	switch w {
 	case 8:
 		var v view.Uint8View
@@ -178,8 +229,40 @@ func TestC19(t *testing.T) {
 			texts = append(texts, new(big.Int).Add(p, big.NewInt(d)).String())
 		}
 	}
-	for _, s := range texts {
+	preset256 := func() view.Uint256View {
+		var le [32]byte
+		for i := range le {
+			le[i] = 0xa5
+		}
+		var v view.Uint256View
+		v.SetBytes32(le)
+		return v
+	}
+	for si, s := range texts {
 		tb := []byte(s)
+		// every text also against destinations that already hold a value
+		if si%2 == 1 {
+			presetDst = true
+			for _, w := range []int{8, 16, 32, 64} {
+				out.emit("text-reuse", "uut", []string{hx(uint64(w)), hexBytes(tb)}, guard(func() string { return uut(w, tb) }))
+				out.emit("json-reuse", "uuj", []string{hx(uint64(w)), hexBytes(tb)}, guard(func() string { return uuj(w, tb) }))
+			}
+			presetDst = false
+			out.emit("u256-reuse", "u256ut", []string{hexBytes(tb)}, guard(func() string {
+				v := preset256()
+				if err := v.UnmarshalText(tb); err != nil {
+					return classify(err)
+				}
+				return "OK " + u256hex(v)
+			}))
+			out.emit("u256-reuse", "u256uj", []string{hexBytes(tb)}, guard(func() string {
+				v := preset256()
+				if err := v.UnmarshalJSON(tb); err != nil {
+					return classify(err)
+				}
+				return "OK " + u256hex(v)
+			}))
+		}
 		for _, w := range []int{8, 16, 32, 64} {
 			out.emit("text", "uut", []string{hx(uint64(w)), hexBytes(tb)}, guard(func() string { return uut(w, tb) }))
 			out.emit("json", "uuj", []string{hx(uint64(w)), hexBytes(tb)}, guard(func() string { return uuj(w, tb) }))
